@@ -23,9 +23,55 @@ DESIGN_REF = "DESIGN.md section 5, C08"
 LEAN_TARGETS = ["PV.C08.Thm"]
 DRIVER = "drv_c08"
 HARNESS = {"bin": "pvh_c08", "features": "default"}
+PAREN_THEOREMS = [
+    "PV.C08.Paren.paren_atom",
+    "PV.C08.Paren.paren_atom_parses",
+    "PV.C08.Paren.paren_operand",
+    "PV.C08.Paren.paren_operand_eq",
+    "PV.C08.Paren.operand_of_fragment",
+    "PV.C08.Paren.eqLarge_paren_at",
+    "PV.C08.Paren.paren_atom_eq",
+    "PV.C08.Paren.paren_loop_eq",
+    "PV.C08.Paren.paren_trail_eq",
+    "PV.C08.Paren.loopOperand_of_fragment",
+    "PV.C08.Paren.trailOperand_of_fragment",
+    "PV.C08.Paren.paren_invariant_partial",
+    "PV.C08.Paren.genexp_arg_not_namedTest",
+    "PV.C08.Paren.genexp_arg_same_tree",
+    "PV.C08.Paren.starred_paren_rejected",
+    "PV.C08.Paren.yield_needs_parens",
+    "PV.C08.Paren.tuple_parens_not_redundant",
+    "PV.C08.Paren.name_positions_not_operands",
+    "PV.C08.Paren.Example.composed",
+]
+PAREN_MISSING = ("redundant parentheses (PV.C08.Paren, on the reference parser PV.C11.parseRef): paren_atom is unconditional; "
+                 "paren_operand / paren_invariant_partial assume that the parenthesised tokens are a COMPLETE OPERAND "
+                 "(`Operand lvl u e`: in front of every follower that does not continue it, the level's parser function reads "
+                 "exactly u as e; for left-recursive slots `LoopOperand` / `TrailOperand`) — derived for every rendering of the "
+                 "C11 fragment, not derived from a single successful parse of the bare text (that needs a frame lemma over the "
+                 "47 functions of the parser: the parse of u does not depend on the follower beyond the listed look-ahead); "
+                 "positions without a rule: lambda parameter defaults other than the first parameter's, expression text inside "
+                 "f-string replacement fields (re-lexed from characters), and everything above expressions (statement level: "
+                 "with-items, targets, patterns, decorators … — differential only)")
 THEOREMS = [
     "PV.C08.lex_layout_invariant",
     "PV.C08.lex_layout_invariant_runs",
+    "PV.C08.layout_tree_invariant",
+    "PV.C08.reindent_tree_invariant",
+    "PV.C08.lex_reindent_invariant",
+    "PV.C08.lex_reindent_invariant_bom",
+    "PV.C08.reindent_runs",
+    "PV.C08.midRuns_transfer",
+    "PV.C08.dedentLoop_sim",
+    "PV.C08.handleIndentations_sim_core",
+    "PV.C08.handleIndentations_sim",
+    "PV.C08.step_sim_bol",
+    "PV.C08.step_sim_mid",
+    "PV.C08.step_brk_local",
+    "PV.C08.step_to_bol",
+    "PV.C08.runs_bol_extend",
+    "PV.C08.at_bol_extend",
+    "PV.C08.at_rewritten_not_derivable",
     "PV.C08.rule_eol_thm",
     "PV.C08.rule_blanks_thm",
     "PV.C08.rule_commentAfter_thm",
@@ -35,43 +81,62 @@ THEOREMS = [
     "PV.C08.rule_formFeed_thm",
     "PV.C08.nextChar_folds",
     "PV.C08.lexCore_regular_thm",
-]
+] + PAREN_THEOREMS
 TRUSTED = [
     "Lean 4.33.0 kernel; axioms limited to propext, Classical.choice, Quot.sound",
     "CPython 3.11.7 `ast.parse` as the judge of which rewrites are layout-only (every variant has the reference's tree)",
     "tools/c08_layout.py (rewriter), tools/c08_gen.py (program generator), harness/src/bin/pvh_c08.rs (range eraser over "
     "derive(Debug) output, 128-bit tree hash)",
-    "the LALRPOP automaton and its actions are not modelled: that equal range-erased token streams give equal range-erased "
-    "trees is checked by the differential on the real parser, not proved",
+    "the lexer model lean/PV/Lexer (b-lexer's) is tied to parser/src/lexer.rs + soft_keywords.rs by the lexpair stream of this "
+    "check and by the C05 correspondence streams",
+    "the expression reference parser PV.C11.parseRef (the parenthesis theorems are about it) is tied to the generated LR parser "
+    "by C11's correspondence stream (parse vs parseRef on generated and unparsed expressions)",
+    "the program reference parser PV.Prog.parseProgram (layout_tree_invariant / reindent_tree_invariant compose the token "
+    "theorems with it) is tied to the generated LR parser by the PROG correspondence streams; the token conversion `conv` "
+    "(string decoding, float numerals) is a parameter of those corollaries — they hold for every conversion",
 ]
 PARTIAL = [
-    "from equal range-erased token streams to equal range-erased trees: the LALRPOP automaton and its actions are not "
-    "modelled; checked by the differential on the real parser only",
-    "place-dependent rules of LayoutEq (blank/comment lines, form feed, blanks, comment after code, backslash join, bracket "
-    "break) are proved in suffix form unconditionally (rule_*_thm); the whole-text theorem assumes, per rule instance, that "
-    "the lexer reaches the place in the same state after the same tokens in BOTH texts (Spec.At for a and for b): that the "
-    "inserted layout text does not change how the token in front of it was delimited (look-ahead of the previous step) is "
-    "not proved in general; line ends (eol) and BOM are unconditional",
-    "consistent re-indentation (other width, tabs) is not formalised in Lean (needs a simulation between different "
-    "indentation stacks); differential only",
-    "redundant parentheses (paren_invariant) are not a lexer matter and are not proved; differential only",
+    "from tokens to trees is proved on the REFERENCE parsers only (PV.Prog.parseProgram, PV.C11.parseRef); the LALRPOP "
+    "automaton itself is not modelled — its agreement with the reference parsers is the PROG / C11 correspondence, and the real "
+    "parser is judged directly by the layout differential",
+    "LayoutEq: the three rules at the start of a line (blank / comment-only line, blank tail, form feed) now need the "
+    "lexer-position hypothesis Spec.At for the ORIGINAL text only (for the rewritten text it is derived: at_bol_extend, from the "
+    "look-ahead lemma step_brk_local); the four rules behind a token (blanks, comment after code, backslash join, bracket break) "
+    "still carry At for the rewritten text: it cannot be derived from At for the original and the rule's side conditions "
+    "(at_rewritten_not_derivable: `x#c` + blank — the comment swallows the blank, position 3 is no step boundary in the "
+    "rewritten text, although the tokens are equal); deriving it needs 'the token in front of the place is not a comment and "
+    "ends for a reason that the inserted layout character also provides', a per-arm look-ahead analysis that is not done; "
+    "line ends (eol) and BOM are unconditional",
+    "re-indentation (lex_reindent_invariant): proved for texts related by PV.C08.Reindent — logical lines are read off the "
+    "lexer's run on the ORIGINAL text, the new run of blanks of every line must be free of 'tab after space' (measure = some) "
+    "and stand in the same compare_strict relation to EVERY open block of its own text as the old one (SimLevel; more than the "
+    "lexer looks at: levels below the matching one are compared too); a line whose CR line end would fuse with an LF at the "
+    "start of the next re-indented line is excluded",
+    PAREN_MISSING,
     "default build only (cfg.fullLexer = false); Unicode tables are parameters constrained by UpOk",
 ]
 RULE = ("request = one original program with its layout variants (layout) or one (original, variant) pair (lexpair); "
         "distinct = distinct request line; every request is non-trivial (variant text differs from the original)")
 READY = True
-TECHNIQUE = ("Lean 4 theorem over the lexer model (layout-equivalent texts have equal range-erased token streams) + "
-             "differential of the real parser on CPython-validated layout variants")
-LEVEL_TEXT = ("Machine-checked Lean 4 theorems about the lexer model, for texts of every length: texts related by the layout "
-              "rules (LF/CRLF/CR anywhere incl. strings, BOM, blank and comment-only lines, form feeds, blanks and comments after "
-              "code, backslash joins, line breaks inside brackets, and their compositions) lex to the same tokens and the same "
-              "kind of end once ranges are erased; the line-end rule is proved globally by walking every function of the model. "
-              "The model is tied to the real lexer on (original, variant) pairs on every run, and the real PARSER is judged "
-              "directly: every CPython-validated layout variant (incl. re-indentation and redundant parentheses) of generated "
-              "programs and of the CPython standard library must give the same acceptance and the same range-erased tree.")
-LEVEL_NOTE = ("Not proved: token stream -> tree (LALRPOP automaton not modelled), re-indentation, parentheses, and the "
-              "look-ahead independence of the text in front of an insertion (assumed per instance via Spec.At). Trusted: Lean "
-              "kernel, CPython 3.11.7 as judge of layout-only, the rewriter/generator/harness.")
+TECHNIQUE = ("Lean 4 theorems over the lexer model (layout-equivalent and consistently re-indented texts have equal range-erased "
+             "token streams) and over the reference parsers (equal tokens give equal trees; redundant parentheses around a "
+             "complete operand give the same tree) + differential of the real parser on CPython-validated layout variants")
+LEVEL_TEXT = ("Machine-checked Lean 4 theorems, for texts of every length. (1) Lexer model: texts related by the layout rules "
+              "(LF/CRLF/CR anywhere incl. strings, BOM, blank and comment-only lines, form feeds, blanks and comments after code, "
+              "backslash joins, line breaks inside brackets, and their compositions) and texts related by consistent "
+              "re-indentation (other widths, tabs for spaces, per line an order-preserving change of level) lex to the same "
+              "tokens incl. INDENT/DEDENT and the same kind of end (same first error kind); the line-end rule is proved globally "
+              "by walking every function of the model; for rules at the start of a line and for re-indentation only the run on "
+              "the ORIGINAL text is assumed. (2) Reference parsers: equal erased token streams give equal trees "
+              "(layout_tree_invariant), and one redundant pair of parentheses around a complete operand gives the same tree at "
+              "every level of the precedence chain and in the listed operand positions (paren_*). The lexer model is tied to the "
+              "real lexer on (original, variant) pairs on every run, and the real PARSER is judged directly: every "
+              "CPython-validated layout variant (incl. re-indentation and redundant parentheses) of generated programs and of "
+              "the CPython standard library must give the same acceptance and the same range-erased tree.")
+LEVEL_NOTE = ("Not proved: the LALRPOP automaton (reference parsers are tied to it by correspondence), At for the rewritten "
+              "text of the four rules behind a token (witness: cannot be derived), parenthesis positions listed as missing. "
+              "Trusted: Lean kernel, CPython 3.11.7 as judge of layout-only, the rewriter/generator/harness, the PROG and C11 "
+              "correspondence for the reference parsers.")
 
 LEX_MODEL_READY = True       # set when drv_c08 answers `lexpair` from lean/PV/Lexer
 
@@ -363,6 +428,32 @@ SMALL = [
 ]
 
 
+# nested blocks x dedent patterns x indentation styles (deterministic; every style extends the enclosing block's
+# indentation string, so CPython and lexer.rs agree that it is consistent)
+DEPTHS = [
+    [0, 1, 0], [0, 1, 1, 0], [0, 1, 2, 0], [0, 1, 2, 1, 0], [0, 1, 2, 3, 0], [0, 1, 2, 3, 1, 0], [0, 1, 2, 3, 2, 1, 0],
+    [0, 1, 2, 3, 1, 2, 0], [0, 1, 2, 3, 4, 1, 0], [0, 1, 2, 3, 4, 2, 3, 1], [0, 1, 2, 1, 2, 3, 1], [0, 1, 2, 3],
+    [0, 1, 2, 3, 4, 3, 2, 1, 0], [0, 1, 2, 3, 4, 1, 2, 3, 4, 2],
+]
+STYLES = [
+    ["    ", "    ", "    ", "    "],          # the original: four spaces per level
+    [" ", " ", " ", " "], ["  ", "   ", " ", "        "], ["\t", "\t", "\t", "\t"], ["\t", "\t\t", "\t", "\t\t\t"],
+    ["\t", " ", "  ", " "], ["\t", "\t", "  ", "    "], ["\t ", " ", " ", " "], ["\t\t", "\t", " ", " "],
+    ["\t", "\t", "\t", "   "], ["        ", "        ", " ", " "],
+]
+
+
+def nested_text(depths, units, eol="\n", final=True):
+    ind = [""]
+    for u in units:
+        ind.append(ind[-1] + u)
+    lines = []
+    for k, d in enumerate(depths):
+        deeper = k + 1 < len(depths) and depths[k + 1] > d
+        lines.append(ind[d] + (f"if a{k}:" if deeper else f"b{k} = {k}"))
+    return eol.join(lines) + (eol if final else "")
+
+
 # ------------------------------------------------------------------------------------------------ generation
 
 def _lexreq(mode, a, b):
@@ -527,6 +618,28 @@ def streams(ctx):
     out.append(Stream("known-softkw-probe", [_req("m", KNOWN_SOFTKW[0], KNOWN_SOFTKW[1])], kind="directed", compare=False,
                       note="deterministic probe of the listed known finding"))
 
+    # 1b. nested blocks: every dedent pattern x every indentation style (re-indentation, directed)
+    reqs, nested_lex = [], []
+    for dp in DEPTHS:
+        orig = nested_text(dp, STYLES[0])
+        sig = LAY.ref_sig(orig)
+        good = []
+        for st in STYLES[1:]:
+            for eol, fin in (("\n", True), ("\r\n", True), ("\n", False)):
+                v = nested_text(dp, st, eol, fin)
+                if v != orig and LAY.ref_sig(v) == sig and LAY.usable_original(v, {}) is not None:
+                    good.append(v)
+        if sig is not None and good:
+            reqs.append(_req("m", orig, good))
+            for v in good:
+                r = _lexreq("m", orig, v)
+                if r:
+                    nested_lex.append(r)
+    out.append(Stream("reindent-nested", reqs, kind="exhaustive", exhaustive=True, compare=False,
+                      note=f"{len(DEPTHS)} nestings (multi-level dedents to indented levels, dedent at EOF) x {len(STYLES) - 1} "
+                           f"indentation styles (spaces of other widths, tabs, tab+spaces) x LF/CRLF/no final line end; the "
+                           f"instances of PV.C08.lex_reindent_invariant on the real parser"))
+
     # 2. exhaustive single-site variants of small programs
     bases = list(SMALL)
     rng = ctx.rng("small-bases")
@@ -637,7 +750,7 @@ def streams(ctx):
 
     # 6. token streams of (original, variant): real lexer vs Lean lexer model, and equality of the two halves
     if LEX_MODEL_READY:
-        lx = lexreqs + small_lex + gen_lex + expr_lex + inter_lex
+        lx = lexreqs + nested_lex + small_lex + gen_lex + expr_lex + inter_lex
         out.append(Stream("lexpair-model-vs-lexer", lx, kind="random", compare=True,
                           note="range-erased token streams of original and variant (rules without parentheses) from the real "
                                "lexer and from the Lean model used by PV.C08.Thm"))
